@@ -34,7 +34,7 @@ def jobs(tier):
                      bound="%d objects, %d requested (<= objects); all pair distances arbitrary" % (nobj, nsel),
                      clause="MaxDis_Fast satisfies the same greedy max-min specification as MaxDis (so both return the same sequence whenever the condensed and square distances agree, C13)"))
     KS = ["vector.c", "memwrapper.c", "numeric.c", "matrix.c", "metricspace.c", "tensor.c", "list.c", "statistic.c", "pca.c", "preprocessing.c", "algebra.c", "graphs.c"]
-    for (r, c, k) in ([(3, 1, 2), (2, 1, 3)] if tier == "quick" else [(3, 1, 2), (2, 1, 3), (3, 1, 3), (1, 1, 1)]):   # two variables (sum of two wrapped squares) did not finish in 900 s
+    for (r, c, k) in ([(3, 1, 2), (2, 1, 3)] if tier == "quick" else [(3, 1, 2), (2, 1, 3), (2, 1, 2), (1, 1, 1)]):   # two variables (sum of two wrapped squares) and 3 objects x 3 centroids did not finish in 900 s
         J.append(Job("kmeans_labels@r=%d,c=%d,k=%d" % (r, c, k), "C17/kmeans_steps.c", entry="h_kmeans_labels", srcs=KS, kind="bounded", mode="ring", defines={"VC_R": r, "VC_C": c, "VC_K": k},
                      unwind=max(r, c, k) + 3, functions=["getLabelsWorker", "getLabels"], timeout=900, bound="%d objects x %d variables, %d centroids; cells symbolic in -8..7 in the ring Z/256; every slice" % (r, c, k),
                      clause="k-means labelling: label in range, a nearest centroid (first minimum), frame of the worker slice, worker == single-thread"))
